@@ -71,3 +71,74 @@ def run_conversion(ctx, name, T, m, t, p, **kw):
     key = ctx.entry(pat.format(T=T))
     outs = it.call_fn(st, key, args)
     return it, outs
+
+# ---------------------------------------------------------------------------------
+# Inputs obtained through the public constructors: only what a constructor's Ok path
+# establishes (its path condition) may be assumed about a caller-supplied image.
+def constructed_yuv(ctx, it, st, T, cfgv, name='yuv'):
+    """Run Yuv::<T>::new on a fully symbolic frame; returns [(state, yuv value)] for Ok paths."""
+    tid = find_type(ctx.crate, f'v_frame::frame::Frame<{T}>')
+    frame = symbolic(it, st, tid, f'{name}.data')
+    outs = it.call_fn(st, ctx.entry(f'yuv::Yuv::<{T}>::new'), [frame, cfgv])
+    return [(s, v.fields[0]) for s, v in outs if is_ok(ctx.crate, v)]
+
+def constructed_image(ctx, it, st, kind, name, t='BT1886', p='BT709'):
+    """Rgb / LinearRgb / Xyb / Hsl through its `new`."""
+    mod = {'Rgb': 'rgb', 'LinearRgb': 'linear_rgb', 'Xyb': 'xyb', 'Hsl': 'hsl'}[kind]
+    n = X.sym(X.USIZE, f'{name}.data.len', 0, GEOM_MAX)
+    elem = find_type(ctx.crate, '[f32; 3]')
+    o = st.alloc(Buf(elem, n, None, f'{name}.data'))
+    w = X.sym(X.USIZE, f'{name}.width', 0, GEOM_MAX); h = X.sym(X.USIZE, f'{name}.height', 0, GEOM_MAX)
+    args = [Opaque('vec', buf=o), w, h]
+    if kind == 'Rgb':
+        args += [mk_enum(ctx.crate, ctx.TC, t), mk_enum(ctx.crate, ctx.CP, p)]
+    outs = it.call_fn(st, ctx.entry(f'{mod}::{kind}::new'), args)
+    return [(s, v.fields[0]) for s, v in outs if is_ok(ctx.crate, v)]
+
+VALIDATED = {
+    'Yuv->Rgb': ('yuv', None), 'Yuv->LinearRgb': ('yuv', None), 'Yuv->Xyb': ('yuv', None),
+    'Rgb->LinearRgb': ('Rgb', 'value'), 'Rgb->Xyb': ('Rgb', 'value'), 'Rgb->Yuv': ('Rgb', 'ref_cfg'),
+    'LinearRgb->Rgb': ('LinearRgb', 'tp'), 'LinearRgb->Yuv': ('LinearRgb', 'cfg'),
+    'Xyb->Yuv': ('Xyb', 'cfg'), 'Xyb->Rgb': ('Xyb', 'tp'),
+    'LinearRgb->Xyb': ('LinearRgb', 'value'), 'Xyb->LinearRgb': ('Xyb', 'value'),
+    'LinearRgb->Hsl': ('LinearRgb', 'value'), 'Hsl->LinearRgb': ('Hsl', 'value'),
+}
+CONVERSIONS.update({
+    'LinearRgb->Xyb': ('<xyb::Xyb as std::convert::From<linear_rgb::LinearRgb>>::from', None),
+    'Xyb->LinearRgb': ('<linear_rgb::LinearRgb as std::convert::From<xyb::Xyb>>::from', None),
+    'LinearRgb->Hsl': ('<hsl::Hsl as std::convert::From<linear_rgb::LinearRgb>>::from', None),
+    'Hsl->LinearRgb': ('<linear_rgb::LinearRgb as std::convert::From<hsl::Hsl>>::from', None),
+})
+TYNAME = {'Rgb': 'rgb::Rgb', 'LinearRgb': 'linear_rgb::LinearRgb', 'Xyb': 'xyb::Xyb', 'Hsl': 'hsl::Hsl'}
+
+def run_validated(ctx, name, T, m, t, p, **kw):
+    """Interpret a conversion on inputs produced by the public constructors.
+    Returns (it, n_ob0, [(outs of one constructor path)])"""
+    it = ctx.interp()
+    st = State()
+    src, how = VALIDATED[name]
+    cfgv = ctx.yuv_config(m=m, t=t, p=p, **kw)
+    if src == 'yuv':
+        inputs = [(s, [Ptr(s.alloc(y), ())]) for s, y in constructed_yuv(ctx, it, st, T, cfgv)]
+    else:
+        imgs = constructed_image(ctx, it, st, src, src.lower(), t, p)
+        inputs = []
+        for s, img in imgs:
+            if how == 'value':
+                args = [img]
+            elif how == 'ref_cfg':
+                tup = find_type(ctx.crate, '(&rgb::Rgb, yuv::YuvConfig)')
+                args = [Agg('tuple', tup, [Ptr(s.alloc(img), ()), cfgv])]
+            elif how == 'tp':
+                tup = find_type(ctx.crate, f'({TYNAME[src]}, av_data::pixel::TransferCharacteristic, av_data::pixel::ColorPrimaries)')
+                args = [Agg('tuple', tup, [img, mk_enum(ctx.crate, ctx.TC, t), mk_enum(ctx.crate, ctx.CP, p)])]
+            else:
+                tup = find_type(ctx.crate, f'({TYNAME[src]}, yuv::YuvConfig)')
+                args = [Agg('tuple', tup, [img, cfgv])]
+            inputs.append((s, args))
+    marks = (len(it.rec.obligations), len(it.rec.panics), len(it.rec.unsafe_ops), len(it.rec.events))
+    key = ctx.entry(CONVERSIONS[name][0].format(T=T))
+    results = []
+    for s, args in inputs:
+        results.append(it.call_fn(s, key, args))
+    return it, marks, results
